@@ -24,6 +24,8 @@ GEOS = [
     {"so": "shampoo", "shapes": [[6, 3]], "block": 3, "merge": 3, "row_scale": [[0, 3, 1e3]]},
     {"so": "shampoo", "shapes": [[2, 2, 3]], "block": 1024, "merge": 2},    # rank 3, exponent 6
     {"so": "shampoo", "shapes": [[6, 2, 6]], "block": 3, "merge": 2},       # 2x2 blocks around a small middle axis
+    # the second block gets no gradient at step 0: zero covariance -> zero root until the next refresh
+    {"so": "shampoo", "shapes": [[6, 2]], "block": 3, "merge": 2, "zero_rows_first": [3, 6, 1]},
     {"so": "sketchy", "shapes": [[5, 4]], "block": 1024, "merge": 4, "rank": 2},
     {"so": "sketchy", "shapes": [[6, 3]], "block": 1024, "merge": 3, "rank": 2},
     {"so": "sketchy", "shapes": [[4, 5]], "block": 1024, "merge": 4, "rank": 2, "sk_rel": False, "sk_eps": 1e-6},
